@@ -1,6 +1,8 @@
 package bt
 
 import (
+	"sync"
+
 	btapb "cloud.google.com/go/bigtable/admin/apiv2/adminpb"
 	btpb "cloud.google.com/go/bigtable/apiv2/bigtablepb"
 	"github.com/fullstorydev/emulators/bigtable/bttest"
@@ -22,6 +24,13 @@ func (s YieldStorage) Open(tbl *btapb.Table) bttest.Rows {
 	return &yieldRows{inner: s.Inner.Open(tbl), y: s.Y}
 }
 func (s YieldStorage) SetTableMeta(tbl *btapb.Table) { s.Inner.SetTableMeta(tbl) }
+
+// DeleteTableMeta forwards the optional interface of the disk engine.
+func (s YieldStorage) DeleteTableMeta(tbl *btapb.Table) {
+	if d, ok := s.Inner.(interface{ DeleteTableMeta(*btapb.Table) }); ok {
+		d.DeleteTableMeta(tbl)
+	}
+}
 
 type yieldRows struct {
 	inner bttest.Rows
@@ -58,3 +67,64 @@ func (r *yieldRows) ReplaceOrInsert(row *btpb.Row) {
 	r.inner.ReplaceOrInsert(row)
 }
 func (r *yieldRows) Close() { r.inner.Close() }
+
+// trackStorage remembers every Rows object the engine hands out, so that the
+// harness can close the ones the server forgets (a deleted table's storage is
+// never closed by the emulator; with thousands of cases per process that
+// leaks gigabytes of leveldb buffers).
+type trackStorage struct {
+	inner bttest.Storage
+	mu    *sync.Mutex
+	open  *[]*trackRows
+}
+
+func newTrackStorage(inner bttest.Storage) trackStorage {
+	return trackStorage{inner: inner, mu: &sync.Mutex{}, open: &[]*trackRows{}}
+}
+
+func (s trackStorage) track(r bttest.Rows) bttest.Rows {
+	t := &trackRows{Rows: r}
+	s.mu.Lock()
+	*s.open = append(*s.open, t)
+	s.mu.Unlock()
+	return t
+}
+func (s trackStorage) Create(tbl *btapb.Table) bttest.Rows { return s.track(s.inner.Create(tbl)) }
+func (s trackStorage) GetTables() []*btapb.Table           { return s.inner.GetTables() }
+func (s trackStorage) Open(tbl *btapb.Table) bttest.Rows   { return s.track(s.inner.Open(tbl)) }
+func (s trackStorage) SetTableMeta(tbl *btapb.Table)       { s.inner.SetTableMeta(tbl) }
+
+// DeleteTableMeta forwards the optional interface of the disk engine.
+func (s trackStorage) DeleteTableMeta(tbl *btapb.Table) {
+	if d, ok := s.inner.(interface{ DeleteTableMeta(*btapb.Table) }); ok {
+		d.DeleteTableMeta(tbl)
+	}
+}
+
+// closeLeaked closes every Rows object that the server did not close itself.
+func (s trackStorage) closeLeaked() {
+	s.mu.Lock()
+	defer s.mu.Unlock()
+	for _, t := range *s.open {
+		if !t.closed {
+			func() {
+				defer func() { _ = recover() }()
+				t.closed = true
+				t.Rows.Close()
+			}()
+		}
+	}
+	*s.open = nil
+}
+
+type trackRows struct {
+	bttest.Rows
+	closed bool
+}
+
+func (t *trackRows) Close() {
+	if !t.closed {
+		t.closed = true
+		t.Rows.Close()
+	}
+}
